@@ -275,12 +275,13 @@ def run(ctx):
       if isinstance(n, ast.Call) and isinstance(n.func, ast.Attribute) and n.func.attr == "AttachFactors":
         ctx.violation("R-C01-SINK", fn.where, norm(n), "factors attached outside a Check body: no certificate can be associated")
   rule_merge(ctx)
+  rule_gcd_proper(ctx, bodies)
   # "the key is marked weak": Check bodies set entry.result = True (above); SetTestResult turns that into test_info.weak
   from . import c16
   ctx.borrow(c16.rule_mono, "R-C01-WEAK", lambda r: r.construct == "weak-flag")
   ctx.expect("R-C01-SINK", 12, "12 AttachFactors sites")
   ctx.expect("R-C01-CERT", 14, "11 factor-producing returns + inline sites + BatchGCD")
-  ctx.expect("R-C01-PROPER", 4, "four gcd-based helpers")
+  ctx.expect("R-C01-PROPER", 5, "four gcd-based helpers + CheckGCD")
   ctx.expect("R-C01-WEAK", 13, "12 attaching Check bodies + SetTestResult summary")
   ctx.extra["summaries"] = {k: {"ok": v["ok"], "flag": v["flag"], "returns": v["returns"]} for k, v in pr.summaries.items()}
 
@@ -393,3 +394,64 @@ def rule_merge(ctx):
     probs.append("reader does not parse a literal set of base-16 strings")
   ctx.record(R, f.where, "merge+radix", not probs, "; ".join(sorted(set(probs))) or
              "new set = factors U old_set, written as hex strings, read back with int(_, 16)")
+
+
+def rule_gcd_proper(ctx, bodies):
+  """CheckGCD attaches [g, n // g] with g = gcd(n, product of the other moduli).  g divides n and is != 1 on the attaching path, but it can equal n
+  (every prime of n shared with some other key).  The property wants a proper divisor among the recorded values unless n divides another single
+  modulus, so on the g == n path a proper gcd(n, other modulus) must be recorded too, or an exhaustive search over the batch must have found none."""
+  R = "R-C01-PROPER"
+  for b in bodies:
+    if b.where() != "rsa_aggregate_checks:CheckGCD.Check":
+      continue
+    w = b.w
+    probs = []
+    n_paths = 0
+    for e in b.calls(T.ATTACH_FACTORS):
+      val = e.data["args"][2] if len(e.data["args"]) > 2 else None
+      key = as_poly(e.data["args"][0])
+      K = T.is_attr_of(key, "test_info")
+      n = modulus_of(K) if K is not None else None
+      if not isinstance(val, Seq) or n is None:
+        probs.append("recorded value is not a literal list of factors of the key's modulus")
+        continue
+      n_paths += 1
+      items = [as_poly(x) for x in val.items if not isinstance(x, (Seq, Const, tuple))]
+      proper = False
+      for x in items:
+        ne1 = algebra.known_ne(x, Poly.const(1), e.facts) or algebra.known_lt(Poly.const(1), x, e.facts)
+        nen = algebra.known_ne(x, n, e.facts) or algebra.known_lt(x, n, e.facts)
+        a = x.as_atom()
+        divides = a is not None and (a.kind == "gcd" and any(as_poly(y) == n for y in a.args) or (a.kind == "idx" and "BatchGCD" in repr(a.args[0])))
+        if divides and ne1 and nen:
+          proper = True
+      if proper:
+        continue
+      # no proper divisor on this path: acceptable only after an exhaustive search over the batch (every single modulus tried, none splits n)
+      searched = False
+      for info in w.loop_info.values():
+        for vis in info["visits"]:
+          if isinstance(vis["iter"], Seq) or vis["iter"] is None:
+            continue
+          it = as_poly(vis["iter"]).as_atom()
+          if it is None or it.kind != "map" or as_poly(it.args[2]) != b.artifacts:
+            continue
+          elem = sym.mk("idx", as_poly(vis["iter"]), as_poly(vis["k"]))
+          g = sym.mk("gcd", n, elem)
+          paths = [bp for bp in info["body_paths"] if bp[4] is vis]
+          brk = [bp for bp in paths if bp[0] == "break"]
+          fal = [bp for bp in paths if bp[0] in ("fall", "continue")]
+          ok_b = bool(brk) and all(algebra.known_lt(Poly.const(1), g, bp[2].facts) and algebra.known_lt(g, n, bp[2].facts) for bp in brk)
+          # the loop must sit on this sink's path: its exit facts (none) precede the sink; approximate by containment of the loop's pre facts
+          on_path = all(any(repr(f1) == repr(f2) for f2 in e.facts) for f1 in vis["pre"].facts)
+          found_here = algebra.known_lt(Poly.const(1), g, e.facts) and algebra.known_lt(g, n, e.facts)
+          if found_here:
+            probs.append("a proper divisor gcd(n, other modulus) was found on this path but is not among the recorded values")
+          elif ok_b and fal and on_path and not any(bp[0] == "return" for bp in paths):
+            searched = True
+      if not searched:
+        probs.append("the recorded pair {g, n // g} can be {n, 1} (every prime of n shared with other keys): no proper divisor is recorded although n need not "
+                     "divide a single other modulus, and no search over the single moduli precedes it")
+    if n_paths or probs:
+      ctx.record(R, b.where(), "a proper divisor is recorded unless no single modulus splits n", not probs, "; ".join(sorted(set(probs))) or
+                 "%d attaching paths: g != n, or a proper gcd(n, other modulus) is added, or an exhaustive search over the batch found none" % n_paths)
